@@ -95,8 +95,9 @@ func CSSignature(e *openpgp.Entity, text []byte) (sig string, hashName string, e
 		return "", "", err
 	}
 	out := buf.String()
-	i := strings.Index(out, "-----BEGIN PGP SIGNATURE-----")
-	if i < 0 {
+	// the LAST armour start at the beginning of a line (the text may itself contain dash-escaped armour lines)
+	i := strings.LastIndex(out, "\n-----BEGIN PGP SIGNATURE-----") + 1
+	if i <= 0 {
 		return "", "", fmt.Errorf("clearsign.Encode produced no signature block")
 	}
 	hashName = "SHA256"
